@@ -4,12 +4,20 @@
 From Coq Require Import List String ZArith NArith Bool.
 Import ListNotations.
 From DV Require Import Model.Tree Model.Tables Model.Restore Model.RestoreChecks Proofs.RestoreProofs
-     Gen.Universe Gen.RestTbl.
+     Model.Skeleton Model.FragSkel Gen.Universe Gen.RestTbl Gen.FragTbl.
 Local Open Scope Z_scope.
 
 (* Table obligation: in every case Before spacing is applied before anything the node emits
    and After spacing after everything (Package has no spacing). *)
 Theorem C05_spacing_brackets_node : rest_space_ok universe rest_tbl = true.
+Proof. vm_compute. reflexivity. Qed.
+
+(* Table obligation: the cursor moves between two spacings only over what is printed -- the restorer
+   advances over a token, a string or a bad span under exactly the conditions under which the
+   decorator emits the fragment for it (an implicit empty statement, an absent parenthesis, an absent
+   "func" keyword advance nothing): "directly after a line break" (cursor = cursorAtNewLine) then means
+   that nothing was printed since, which is what makes the rule non-additive across nested nodes. *)
+Theorem C05_cursor_advances_only_over_what_is_printed : token_guards_agree frag_tbl rest_tbl universe = true.
 Proof. vm_compute. reflexivity. Qed.
 
 (* applySpace emits the requested number of line breaks, minus one when the cursor sits
@@ -58,6 +66,7 @@ Example C05_matrix :
 Proof. vm_compute. reflexivity. Qed.
 
 Print Assumptions C05_spacing_brackets_node.
+Print Assumptions C05_cursor_advances_only_over_what_is_printed.
 Print Assumptions C05_apply_space_count.
 Print Assumptions C05_sibling_spacing.
 Print Assumptions C05_trailing_line_comment_neutral.
